@@ -108,3 +108,400 @@ def fmt_instr(ins):
                                     if isinstance(a, tuple) and a and a[0] in
                                     ("reg", "fp", "int", "global", "gep", "null", "undef"))
     return ("%s = %s" % (dest, body)) if dest else body
+
+
+class Typing:
+    """Constraint system over one parsed module (one z3 solver, tracked)."""
+
+    MAX_DEPTH = 14
+
+    def __init__(self, mod, timeout_ms=60000):
+        self.mod = mod
+        self.sol = z3.Solver()
+        self.sol.set("timeout", timeout_ms)
+        self.nvals = 0
+        self.track = {}          # tracker name -> reason text
+        self.nconstr = 0
+        self.inlined = 0
+        self.instrs = 0
+        self.callees = set()
+        self.externals = set()
+        self.zero = Val(z3.RealVal(0), z3.RealVal(0), "0")
+        self.globals = {}
+
+    # -- unknowns and constraints -------------------------------------------
+    def fresh(self, tag="v"):
+        self.nvals += 1
+        return Val(z3.Real("l%d" % self.nvals), z3.Real("m%d" % self.nvals), tag)
+
+    def const(self, l, m, tag="c"):
+        f = lambda x: z3.RealVal(str(fractions.Fraction(x)))
+        return Val(f(l), f(m), tag)
+
+    def _assert(self, phi, why):
+        name = "c%d" % self.nconstr
+        self.nconstr += 1
+        self.track[name] = why
+        self.sol.assert_and_track(phi, z3.Bool(name))
+
+    def eq(self, a, b, why):
+        if a is None or b is None or a is b:
+            return
+        self._assert(z3.And(a.l == b.l, a.m == b.m), why)
+        self._union(a, b, why)
+
+    def lin(self, r, terms, why):
+        """r = sum k_i * v_i"""
+        if r is None or any(v is None for _k, v in terms):
+            return
+        q = lambda k: z3.RealVal(str(fractions.Fraction(k).limit_denominator(10000)))
+        self._assert(z3.And(r.l == z3.Sum([q(k) * v.l for k, v in terms]),
+                            r.m == z3.Sum([q(k) * v.m for k, v in terms])), why)
+
+    def _union(self, a, b, why):
+        ra, rb = a.shape.find(), b.shape.find()
+        if ra is rb:
+            return
+        rb.parent = ra
+        for k, fv in rb.fields.items():
+            if k in ra.fields:
+                self.eq(ra.fields[k], fv, why + " [field %s]" % (k,))
+            else:
+                ra.fields[k] = fv
+        rb.fields = {}
+
+    def field(self, v, k):
+        r = v.shape.find()
+        if k not in r.fields:
+            r.fields[k] = self.fresh("%s.%s" % (v.tag, k))
+        return r.fields[k]
+
+    # -- operands -------------------------------------------------------------
+    def operand(self, env, o, why):
+        if o is None:
+            return None
+        k = o[0]
+        if k == "reg":
+            v = env.get(o[1])
+            if v is None:
+                v = env[o[1]] = self.fresh(o[1])
+            return v
+        if k == "fp":
+            return None if _exempt_fp(o[1]) else self.zero
+        if k == "global":
+            g = self.globals.get(o[1])
+            if g is None:
+                g = self.globals[o[1]] = self.fresh("@" + o[1])
+                typ = self.mod.globals.get(o[1], (None, None))[0]
+                if typ is not None and _has_double(typ):
+                    self._assert(z3.And(g.l == 0, g.m == 0), "table constant @%s has degree 0" % o[1])
+            return g
+        if k == "gep":
+            return self.gep(env, o[1], self.operand(env, o[2], why), o[3], why)
+        return None      # int, null, undef
+
+    def gep(self, env, base, ptr, idx, why):
+        if ptr is None:
+            return None
+        typ, cur = base, ptr
+        for n, ix in enumerate(idx):
+            if n == 0:
+                continue                     # steps over the pointer: same cell class
+            if typ[0] == "arr":
+                typ = typ[2]
+            elif typ[0] == "struct":
+                if ix[0] != "int":
+                    raise Unsupported("dynamic struct index")
+                cur = self.field(cur, ix[1])
+                typ = typ[1][ix[1]]
+            else:
+                raise Unsupported("gep into %r" % (typ,))
+        return cur
+
+
+def _has_double(typ):
+    k = typ[0]
+    if k in ("f64", "f32"):
+        return True
+    if k == "arr":
+        return _has_double(typ[2])
+    if k == "struct":
+        return any(_has_double(t) for t in typ[1])
+    return False
+
+
+def _isfp(t):
+    return t[0] in ("f64", "f32")
+
+
+def _inst(self, fname, args, ctx="", depth=0):
+    """Instantiate the body of *fname* with argument Vals (None = no degree);
+    returns the Val of the returned double (or None)."""
+    f = self.mod.functions[fname]
+    if depth > self.MAX_DEPTH:
+        raise Unsupported("call depth > %d at %s" % (self.MAX_DEPTH, ctx + fname))
+    if len(args) != len(f.args):
+        raise Unsupported("arity of %s" % fname)
+    self.inlined += 1
+    self.callees.add(fname)
+    env = {}
+    for (_t, reg), v in zip(f.args, args):
+        if v is not None:
+            env[reg] = v
+    ret = self.fresh(fname + ".ret") if f.ret in ("double", "float") else None
+    here = ctx + fname
+    for label, block in f.blocks.items():
+        for ins in block:
+            self.instrs += 1
+            self._instr(env, ins, ret, here, depth)
+    return ret
+
+
+def _instr(self, env, ins, ret, here, depth):
+    op, dest = ins[0], ins[1]
+    why = "%s: %s" % (here, fmt_instr(ins))
+    val = lambda o: self.operand(env, o, why)
+    if op in ("fadd", "fsub", "frem"):
+        r = val(("reg", dest))
+        self.eq(r, val(ins[2]), why)
+        self.eq(r, val(ins[3]), why)
+    elif op == "fmul":
+        a, b = val(ins[2]), val(ins[3])
+        if a is not None and b is not None:      # a literal 0 factor: result 0, free
+            self.lin(val(("reg", dest)), [(1, a), (1, b)], why)
+    elif op == "fdiv":
+        a, b = val(ins[2]), val(ins[3])
+        if a is not None and b is not None:
+            self.lin(val(("reg", dest)), [(1, a), (-1, b)], why)
+    elif op == "fneg":
+        self.eq(val(("reg", dest)), val(ins[2]), why)
+    elif op == "fcmp":
+        self.eq(val(ins[3]), val(ins[4]), why)
+    elif op == "phi":
+        r = val(("reg", dest))
+        for _lab, o in ins[2]:
+            self.eq(r, val(o), why)
+    elif op == "select":
+        r = val(("reg", dest))
+        self.eq(r, val(ins[3]), why)
+        self.eq(r, val(ins[4]), why)
+    elif op == "alloca":
+        val(("reg", dest))
+    elif op == "load":
+        typ, p = ins[2], val(ins[3])
+        if p is None:
+            return
+        if _isfp(typ):
+            self.eq(val(("reg", dest)), p, why)
+        elif typ[0] == "ptr":
+            env[dest] = self.field(p, "*")
+    elif op == "store":
+        typ, v, p = ins[2], val(ins[3]), val(ins[4])
+        if p is None:
+            return
+        if _isfp(typ):
+            self.eq(p, v, why)
+        elif typ[0] == "ptr" and v is not None:
+            self.eq(self.field(p, "*"), v, why)
+    elif op == "getelementptr":
+        env[dest] = self.gep(env, ins[2], val(ins[3]), ins[4], why)
+    elif op == "bitcast":
+        src, ft, tt = ins[2], ins[3], ins[4]
+        v = val(src)
+        if v is not None and ft[0] == "ptr":
+            env[dest] = v          # same cells seen through another pointer type
+    elif op in ("sitofp", "uitofp"):
+        self.eq(val(("reg", dest)), self.zero, why)
+    elif op in ("fptosi", "fptoui"):
+        self.eq(val(ins[2]), self.zero, why)
+    elif op in ("fpext", "fptrunc"):
+        self.eq(val(("reg", dest)), val(ins[2]), why)
+    elif op == "ret":
+        if ret is not None and ins[2] is not None:
+            self.eq(ret, val(ins[2]), why)
+    elif op == "call":
+        self._call(env, ins, why, here, depth)
+    elif op in ("br", "jmp", "switch", "unreachable", "icmp", "sext", "zext", "trunc",
+                "add", "sub", "mul", "sdiv", "srem", "udiv", "urem", "and", "or", "xor",
+                "shl", "ashr", "lshr"):
+        pass                        # integers and control: no degree
+    else:
+        raise Unsupported("instruction %s in %s" % (op, here))
+
+
+Typing.inst = _inst
+Typing._instr = _instr
+
+
+def _call(self, env, ins, why, here, depth):
+    dest, callee, cargs = ins[1], ins[2], ins[3]
+    if callee in IGNORED or callee.startswith("llvm.lifetime") or callee.startswith("llvm.dbg"):
+        return
+    if callee.startswith("llvm.memcpy") or callee.startswith("llvm.memmove"):
+        self.eq(self.operand(env, cargs[0][1], why), self.operand(env, cargs[1][1], why), why)
+        return
+    if callee.startswith("llvm.memset"):
+        return
+    vals = []
+    for t, o in cargs:
+        if _isfp(t):
+            v = self.operand(env, o, why)
+            if v is None and o[0] == "fp":
+                v = self.fresh("lit0")            # literal 0 argument: any degree
+            vals.append(v)
+        elif t[0] == "ptr":
+            vals.append(self.operand(env, o, why))
+        else:
+            vals.append(None)
+    r = self.operand(env, ("reg", dest), why) if dest is not None else None
+    if callee in self.mod.functions:
+        rr = self.inst(callee, vals, here + ">", depth + 1)
+        if rr is not None and r is not None:
+            self.eq(r, rr, why)
+        return
+    name = libname(callee)
+    self.externals.add(name)
+    fargs = [v for (t, _o), v in zip(cargs, vals) if _isfp(t)]
+    if name in DIMLESS:
+        for v in fargs:
+            self.eq(v, self.zero, why)
+        self.eq(r, self.zero, why)
+    elif name in SAME1:
+        self.eq(r, fargs[0], why)
+    elif name == "copysign":
+        self.eq(r, fargs[0], why)
+    elif name in ALLEQ:
+        for v in fargs:
+            self.eq(r, v, why)
+    elif name == "sqrt":
+        self.lin(fargs[0], [(2, r)], why)
+    elif name == "cbrt":
+        self.lin(fargs[0], [(3, r)], why)
+    elif name in ("pow", "powi"):
+        e = cargs[1][1]
+        if e[0] in ("fp", "int"):
+            self.lin(r, [(e[1], fargs[0])], why)
+        else:
+            for v in fargs:
+                self.eq(v, self.zero, why)
+            self.eq(r, self.zero, why)
+    elif name == "atan2":
+        self.eq(fargs[0], fargs[1], why)
+        self.eq(r, self.zero, why)
+    elif name == "fma" or name == "fmuladd":
+        self.lin(r, [(1, fargs[0]), (1, fargs[1])], why)
+        self.eq(r, fargs[2], why)
+    else:
+        raise Unsupported("external function %s" % callee)
+
+
+Typing._call = _call
+
+
+def check(self, assumptions=()):
+    r = str(self.sol.check(*assumptions))
+    return r
+
+
+def core_reasons(self):
+    return [self.track.get(str(c), str(c)) for c in self.sol.unsat_core()]
+
+
+Typing.check = check
+Typing.core_reasons = core_reasons
+
+
+# ---------------------------------------------------------------------------
+# binding of table slots to kernel-function arguments, read from the real
+# generated dispatch code (<id>_Iq / <id>_Iqxy call sites)
+
+LEAF = ("form_volume", "shell_volume", "radius_effective", "Iq", "Fq", "Iqac", "Iqabc", "Iqxy")
+NQ = {"Iq": 1, "Fq": 1, "Iqac": 2, "Iqabc": 3, "Iqxy": 2,
+      "form_volume": 0, "shell_volume": 0, "radius_effective": 0}
+
+
+def _defs(fn):
+    d = {}
+    for block in fn.blocks.values():
+        for ins in block:
+            if ins[1] is not None:
+                d[ins[1]] = ins
+    return d
+
+
+def _table_slot(mod, defs, o, table_t):
+    """Operand -> index of the ParameterTable field it addresses, or None."""
+    seen = 0
+    while o is not None and seen < 8:
+        seen += 1
+        if o[0] == "gep":
+            base, ptr, idx = o[1], o[2], o[3]
+        elif o[0] == "reg" and o[1] in defs:
+            ins = defs[o[1]]
+            if ins[0] == "bitcast":
+                o = ins[2]
+                continue
+            if ins[0] != "getelementptr":
+                return None
+            base, ptr, idx = ins[2], ins[3], ins[4]
+        else:
+            return None
+        if base == table_t and len(idx) >= 2 and idx[1][0] == "int":
+            return idx[1][1]
+        if base[0] == "arr":           # decay of an array field: look through
+            o = ptr
+            continue
+        return None
+    return None
+
+
+def bindings(mod, kernel_name):
+    """[(leaf, [arg kinds])] for every distinct leaf call in the dispatch
+    function; kinds: ('slot', k) | ('q',) | ('out',) | ('int',)."""
+    fn = mod.functions[kernel_name]
+    defs = _defs(fn)
+    table_t = mod.type("%struct.ParameterTable")
+    out, seen = [], set()
+    for block in fn.blocks.values():
+        for ins in block:
+            if ins[0] != "call" or ins[2] not in LEAF:
+                continue
+            kinds = []
+            for pos, (t, o) in enumerate(ins[3]):
+                if t[0] == "i":
+                    kinds.append(("int",))
+                elif t[0] == "ptr":
+                    k = _table_slot(mod, defs, o, table_t)
+                    if k is not None:
+                        kinds.append(("slot", k))
+                    elif o[0] == "reg" and defs.get(o[1], ("",))[0] == "alloca":
+                        kinds.append(("out",))
+                    else:
+                        raise Unsupported("pointer argument %d of %s" % (pos, ins[2]))
+                else:
+                    k = None
+                    if o[0] == "reg" and o[1] in defs and defs[o[1]][0] == "load":
+                        k = _table_slot(mod, defs, defs[o[1]][3], table_t)
+                    if k is not None:
+                        kinds.append(("slot", k))
+                    elif len([x for x in kinds if x == ("q",)]) < NQ[ins[2]] and \
+                            all(x[0] in ("q", "out") for x in kinds):
+                        kinds.append(("q",))
+                    else:
+                        raise Unsupported("argument %d of %s is neither q nor a table field"
+                                          % (pos, ins[2]))
+            key = (ins[2], tuple(kinds))
+            if key not in seen:
+                seen.add(key)
+                out.append((ins[2], kinds))
+    return out
+
+
+def table_fields(source):
+    """Field names of the generated ParameterTable, in order."""
+    import re
+    m = re.search(r"#define PARAMETER_TABLE\s*\\\n((?:.*\\\n)*.*)\n", source)
+    if not m:
+        raise Unsupported("PARAMETER_TABLE not found")
+    names = re.findall(r"double\s+(\w+)\s*(?:\[\s*\d+\s*\])?\s*;", m.group(1))
+    return names
